@@ -246,8 +246,14 @@ func encTwice(f func() []byte) []byte {
 }
 
 func showItem(it ast.ItemNode) string {
-	return fmt.Sprintf("bytes=%s str=%s vars=%s size=%d",
-		hx(keep(encTwice(it.ToBytes))), hxs(fmt.Sprint(it)), hxList(it.Variables()), it.Size()) + earlierResults()
+	// fisl: FillInStringLength of an ASCII node - (-2,-2) for a value, the declared bounds for a variable
+	fisl := "-"
+	if a, ok := it.(*ast.ASCIINode); ok {
+		mn, mx := a.FillInStringLength()
+		fisl = fmt.Sprintf("%d,%d", mn, mx)
+	}
+	return fmt.Sprintf("bytes=%s str=%s vars=%s size=%d fisl=%s",
+		hx(keep(encTwice(it.ToBytes))), hxs(fmt.Sprint(it)), hxList(it.Variables()), it.Size(), fisl) + earlierResults()
 }
 
 // handedOut: byte slices the library returned earlier; it must never write to them again
@@ -296,9 +302,9 @@ func showMsg(m *ast.DataMessage) string {
 	for i := range sb {
 		sb[i] ^= 0x5A
 	}
-	return fmt.Sprintf("name=%s s=%d f=%d w=%d dir=%s sid=%d sys=%s hdr=%s str=%s vars=%s bytes=%s",
+	return fmt.Sprintf("name=%s s=%d f=%d w=%d dir=%s sid=%d sys=%s hdr=%s str=%s vars=%s bytes=%s type=%s",
 		hxs(m.Name()), m.StreamCode(), m.FunctionCode(), w, hxs(m.Direction()), m.SessionID(),
-		sys, hxs(m.Header()), hxs(m.String()), hxList(m.Variables()), hx(keep(encTwice(m.ToBytes)))) + earlierResults()
+		sys, hxs(m.Header()), hxs(m.String()), hxList(m.Variables()), hx(keep(encTwice(m.ToBytes))), hxs(ast.HSMSMessage(m).Type())) + earlierResults()
 }
 
 // implItem builds n and renders it, mapping any panic to PANIC.
